@@ -253,11 +253,13 @@ def run_script_shard(args):
 from pysmt.typing import INT as INT_T  # noqa: E402
 
 FORMS = ("a", "na", "b")
-SOLVER_EVENTS = ([("add", f) for f in FORMS] + [("push", 1), ("push", 2), ("pop", 1), ("pop", 2), ("reset",),
+SOLVER_EVENTS = ([("add", f) for f in FORMS] + [("push", 1), ("push", 2), ("pop", 1), ("pop", 2), ("pop", 0),
+                 ("push", 0), ("reset",),
                  ("solve",), ("solve_lit", "nb"), ("solve_nonlit", "a|b"), ("is_sat", "b"), ("is_valid", "a"),
                  ("is_unsat", "na"), ("read",), ("is_sat_bad", "type"), ("is_sat_bad", "refused"),
                  ("add_bad", "refused")])
-SOLVER_EVENTS_QUICK = ([("add", "a"), ("add", "na"), ("push", 1), ("push", 2), ("pop", 1), ("pop", 2), ("reset",),
+SOLVER_EVENTS_QUICK = ([("add", "a"), ("add", "na"), ("push", 1), ("push", 2), ("pop", 1), ("pop", 2), ("pop", 0),
+                        ("push", 0), ("reset",),
                         ("solve",), ("solve_nonlit", "a|b"), ("is_sat", "b"), ("is_valid", "a"), ("read",), ("is_sat_bad", "type"),
                         ("is_sat_bad", "refused")])
 
